@@ -73,7 +73,7 @@ def run(rep, tier):
     corpus = ['MR 0 0', 'MPAD 0 1', 'MPAD 1 0 0\nH 0', 'MRX 0 1 0 !1\nH 0', 'MRY 1 1 1']
     todo = [(t, True) for t in corpus]
     for _ in range(N):
-        prof = gencirc.Profile(len_range=(2, 10), n_choices=[1, 2, 3], repeat=False, sweep=False, feedback=True, noise=False)
+        prof = gencirc.Profile(len_range=(2, 10), n_choices=[1, 2, 3], repeat=(rng.random() < 0.3), sweep=False, feedback=True, noise=False)
         nq, body = gencirc.gen_circuit(rng, gates, prof)
         body = [i for i in body if i.name not in ('TICK',)]
         todo.append((stimtext.circuit_text(body), False))
